@@ -86,6 +86,8 @@ def gen_models(tier, r):
                {"name": "p_b_bool_a1b2c3d_03", "type": "bool", "w": 256, "value": 2, "kind": "above-declared-width"},
                {"name": "p_s_bytes4_a1b2c3d_04", "type": "bytes4", "w": 256, "value": 0xDEADBEEF << 224 | 7, "kind": "above-declared-width"},
                {"name": "p_data_bytes_a1b2c3d_05", "type": "bytes", "w": 8 * 700, "value": (1 << (8 * 700)) - 0xFEED, "kind": "random"}]]
+    # many variables (a test with many arguments / an invariant sequence): none may be dropped
+    models.append([{"name": f"p_a{i}_uint256_a1b2c3d_{i:02d}", "type": "uint256", "w": 256, "value": r.randrange(1 << 256), "kind": "random"} for i in range(70)])
     n = 60 if tier == "quick" else 1200
     for _ in range(n):
         vs, seen = [], set()
